@@ -36,7 +36,7 @@ class _ConditionSet:
         else:
             index = 1
         if operator in (">", "<"):
-            if expression[1] == "=":
+            if expression[1:2] == "=":
                 operator += "="
                 index = 2
         version = expression[index:]
@@ -53,7 +53,8 @@ class _ConditionSet:
                 for i, m in enumerate(main):
                     if m != 0:
                         return i
-                return len(main)
+                # all zeros: the last item is the one that is bumped
+                return len(main) - 1
 
             initial_index = first_non_zero(v.main)
             return [_Condition(">=", v), _Condition("<", v.upper_bound(initial_index))]
